@@ -273,7 +273,7 @@ def run_shard(ctx):
     def test(case):
         runner.guarded(ctx, check_case, case)
 
-    runner.drive(ctx, test, ctx.n(1600, 40000))
+    runner.drive(ctx, test, ctx.n(1600, 12000))
 
 
 def replay(ctx, case):
